@@ -119,7 +119,12 @@ func executeCompaction(db *DB) (compactionMetadata *proto.CompactionMetadata, er
 		}
 	}()
 
-	reduceFunc := sstables.ScanReduceLatestWinsSkipTombstones
+	// tombstones may only be dropped when nothing older than the compacted run exists, otherwise a value in an older
+	// table that is not part of this compaction would become visible again
+	reduceFunc := sstables.ScanReduceLatestWins
+	if compactionAction.includesOldestTable {
+		reduceFunc = sstables.ScanReduceLatestWinsSkipTombstones
+	}
 	err = sstables.NewSSTableMerger(db.cmp).MergeCompact(iterators, writer, reduceFunc)
 	if err != nil {
 		return nil, err
